@@ -310,8 +310,11 @@ impl<'a> SlocCounter<'a> {
                     multi_line_state.exit();
                 }
             } else {
-                // Non-nested: simple check if line ends the comment
-                if !self.detector.contains_multi_line_end(line, end) {
+                // Non-nested: the comment stays open unless its end follows the start marker
+                if !self
+                    .detector
+                    .contains_multi_line_end(matched.after_start(line), end)
+                {
                     multi_line_state.enter(start, end, false);
                 }
             }
@@ -377,7 +380,10 @@ impl<'a> SlocCounter<'a> {
                 for _ in 0..ends {
                     state.exit();
                 }
-            } else if !self.detector.contains_multi_line_end(line, end) {
+            } else if !self
+                .detector
+                .contains_multi_line_end(matched.after_start(line), end)
+            {
                 state.enter(start, end, false);
             }
         }
